@@ -152,9 +152,11 @@ type SettingS struct {
 	NS     string `json:"ns"`
 	Name   string `json:"name"`
 	Ref    string `json:"ref"`
-	Sel    string `json:"sel"` // value of label grp selected ("" = unusable / none)
+	Sel    string `json:"sel"` // value(s) of label grp selected, joined by "+" ("" = unusable / none)
+	Sels   []string `json:"sels"` // the same as a list
 	Res    string `json:"res"` // resource class demanded for container main
 	Age    int    `json:"age"`
+	Born   int    `json:"born"` // creation instant in virtual seconds since the start of the harness process (the controller orders settings by it)
 	Status string `json:"status"`
 	Err    string `json:"err"` // "" | conflict | missing | other
 }
